@@ -22,8 +22,12 @@ RawDocs == JsonDeserialize("docs.json")     \* see lib/c03_lex.py tla_doc(): tok
 NDocs == Len(RawDocs)
 
 -----------------------------------------------------------------------------
-(* layout elements *)
-Gaps == <<" ", "\n", "\t", "\r\n", "/*c*/", "//c\n", "#c\n", "">>
+(* layout elements.  Index 1 (space) and 2 (newline) are the canonical ones, 8 is "no gap at all"; the second table *)
+(* swaps the others for further whitespace / comment forms (CR only, vertical tab, empty and multi-line comments). *)
+CONSTANT GapSet      \* "base" | "ext"
+Gaps == IF GapSet = "base"
+        THEN <<" ", "\n", "\t", "\r\n", "/*c*/", "//c\n", "#c\n", "">>
+        ELSE <<" ", "\n", "\r", " \t ", "/**/", "//\r", "/* c\n // c */", "">>
 GSpace == 1
 GNewline == 2
 GEmpty == 8
